@@ -501,10 +501,24 @@ def handle_oracle_hit(rep, prop, tag, case, desc, sig, shrink_fn=None):
     return True
 
 
+def leak_hit(case):
+    """The harness counts the write batches the code under test begins and brings to Commit (its wrapper begins the engine's batch
+    lazily). A sequential script at whose end a begun batch was never committed is a node that, on the in-memory engine (store
+    mutex held from BeginBatchWrite to Commit), is wedged for good: every later request blocks."""
+    for i, out in enumerate(case.impl or []):
+        if out.startswith("LEAKED-BATCH"):
+            return ("after the %d requests of this script: %s" % (i, out), "begun-batch-never-committed")
+    return None
+
+
 def judge(rep, prop, cases, oracle, tag="correspondence", shrink_fn=None):
     """Two passes over the cases that were run: FIRST every case is judged by its oracle on the implementation's
     transcript (a concrete failing input is what a violation should name), and only when no oracle objects is the first
     model/implementation difference reported (no failing input found). True = the check should stop."""
+    inner = oracle
+
+    def oracle(c):
+        return leak_hit(c) or inner(c)
     for c in cases:
         rep.count_case(c)
         hit = oracle(c)
